@@ -103,6 +103,26 @@ def build_data(spec):
         ds.get_bode_data()
         ds.set_mask({})
         return ds
+    hp = spec.get("history_partial")
+    if hp:
+        # mask some points, read ONE view (whatever the data set caches is filled for that view only), clear the mask
+        rs = np.random.RandomState(int(hp))
+        other = {int(i): True for i in rs.choice(n, size=max(1, n // 3), replace=False)}
+        ds = DataSet(f_in, Z_in, label=spec.get("label", "sim"))
+        ds.set_mask(other)
+        k = rs.randint(0, 5)
+        if k == 0:
+            ds.get_frequencies()
+        elif k == 1:
+            ds.get_impedances()
+        elif k == 2:
+            ds.get_nyquist_data()
+        elif k == 3:
+            ds.get_num_points()
+        else:
+            ds.get_frequencies(masked=True)
+        ds.set_mask({})
+        return ds
     hist = spec.get("history")
     if hist:
         # The same final data set reached through a history on one object (restart-free path):
@@ -350,6 +370,7 @@ DEFAULT_CONFIG = {
     "faults": [],
     "dur_scale": 1.0,
     "fail": [],
+    "analyse_mismatched_data": False,  # C18: a data set that went through a mask history is analysed whatever it presents
     "shared_memory": False,
     "callbacks": 1,
     "extra_kwargs": None,
@@ -392,7 +413,7 @@ def run_entry(workload, config=None, decisions=None, cache=None, keep_result=Fal
     # C08 keeps DataSet defects (C05's subject) out of analysis verdicts
     f_exp, Z_exp = expected_unmasked(workload["data"])
     got_f, got_Z = data.get_frequencies(), data.get_impedances()
-    if got_f.shape != f_exp.shape or not np.array_equal(got_f, f_exp) or not np.array_equal(got_Z, Z_exp):
+    if (got_f.shape != f_exp.shape or not np.array_equal(got_f, f_exp) or not np.array_equal(got_Z, Z_exp)) and not cfg.get("analyse_mismatched_data"):
         out.status = "skipped"
         out.skipped = "dataset_mismatch"
         return out
